@@ -89,6 +89,14 @@ func (t *Input) Extend(x Type) error {
 	return t.Base.Extend(x)
 }
 
+func (t *Input) unextend() func() {
+	base, nf := t.Base.unextend(), len(t.fields.list)
+	return func() {
+		base()
+		t.fields.truncate(nf)
+	}
+}
+
 // CoerceIn coerces an input value into the expected input type if possible
 // otherwise an error is returned.
 func (t *Input) CoerceIn(v interface{}) (interface{}, error) {
